@@ -87,6 +87,82 @@ def match_cases(ctx, n):
     correspond(ctx, "matchto", cases)
 
 
+def index_cases(ctx, n):
+    """matches reported through the adapter index (several anchored adapters, cutadapt's default mode): the same clauses, per reported
+    match, against the adapter the match names (the index itself is modelled and proved sound in C08; here only the oracle runs)"""
+    import cutadapt.adapters as A
+    rng = ctx.rng
+    done = 0
+    while done < n:
+        prefix = rng.random() < 0.5
+        ty = "prefix" if prefix else "suffix"
+        k = rng.randint(2, 5)
+        equal = rng.random() < 0.5
+        L0 = rng.randint(5, 12)
+        ads, cfgs = [], []
+        for _ in range(k):
+            seq = "".join(rng.choice("ACGT") for _ in range(L0 if equal else rng.randint(5, 14)))
+            if cfgs and rng.random() < 0.3:
+                t = list(rng.choice(cfgs)["seq"])
+                t[rng.randrange(len(t))] = rng.choice("ACGT")
+                seq = "".join(t)
+            cfg = dict(ty=ty, seq=seq, max_errors=rng.choice([0, 0.1, 0.2, 0.25, 1, 2]), min_overlap=3, read_wildcards=False, adapter_wildcards=False,
+                       indels=rng.random() < 0.7, force_anywhere=False)
+            a, err = gens.make_adapter(cfg, mock_kmer=False)
+            if a is not None and cfg["seq"] not in [c["seq"] for c in cfgs]:
+                ads.append(a)
+                cfgs.append(cfg)
+        if len(ads) < 2:
+            continue
+        import logging
+        logging.disable(logging.CRITICAL)
+        try:
+            idx = (A.IndexedPrefixAdapters if prefix else A.IndexedSuffixAdapters)(ads)
+        except Exception:
+            idx = None
+        finally:
+            logging.disable(logging.NOTSET)
+        if idx is None:
+            ctx.count("index:not-indexable")
+            done += 1
+            continue
+        for _ in range(12):
+            a = rng.choice(ads)
+            core = gens.gen_read(rng, a.sequence)
+            x = rng.random()
+            if x < 0.5:      # the adapter copy at the anchored end, maybe nothing else (read shorter than the other adapters)
+                t = list(a.sequence)
+                for _e in range(rng.choice([0, 0, 1, 2])):
+                    j = rng.randrange(len(t))
+                    y = rng.random()
+                    if y < 0.5:
+                        t[j] = rng.choice("ACGTN")
+                    elif y < 0.75:
+                        del t[j]
+                    else:
+                        t.insert(j, rng.choice("ACGT"))
+                    if not t:
+                        t = ["A"]
+                rest = "".join(rng.choice("ACGT") for _ in range(rng.choice([0, 0, 1, 3, 10])))
+                core = "".join(t) + rest if prefix else rest + "".join(t)
+            mt = idx.match_to(core)
+            done += 1
+            ctx.evaluations += 1
+            if mt is None:
+                continue
+            ctx.count("index:match")
+            cfg = cfgs[ads.index(mt.adapter)] if mt.adapter in ads else None
+            if cfg is None:
+                ctx.failures.append(Failure("C01/bounds", "the index reports a match of an adapter that is not in the index", dict(cfgs=cfgs, read=core),
+                                            gens.show_match(mt), None))
+                continue
+            for p in OA.check_match(ty, mt.adapter, core, mt, isinstance(mt, A.RemoveBeforeMatch)):
+                ctx.failures.append(Failure("C01/" + p.split()[0], f"match reported through the adapter index violates C01: {p}",
+                                            dict(index_of=cfgs, cfg=cfg, read=core), gens.show_match(mt), None))
+            if mt.errors > 0:
+                ctx.nontriv(("I", ty, tuple(c["seq"] for c in cfgs), core))
+
+
 def small_scope(ctx, max_adapter, max_read, rates, cap=None):
     """all adapters <= max_adapter over {A,C,N} x all reads <= max_read over {A,C,N,a} x types x rates x overlaps x switches"""
     cases = []
@@ -121,6 +197,7 @@ def run(ctx):
                 "k-mer finder; non-trivial = distinct case with a reported match that has >= 1 error or an N wildcard in the aligned adapter part")
     locate_cases(ctx, ctx.scale(12000, 300000))
     match_cases(ctx, ctx.scale(16000, 300000))
+    index_cases(ctx, ctx.scale(4000, 100000))
     if ctx.tier == "thorough":
         small_scope(ctx, 3, 5, [0.0, 0.34, 0.5])
         ctx.notes.append("small scope enumerated: adapters <= 3 over {A,C,N} x reads <= 5 over {A,C,N,a} x 8 types x 3 rates x indels x 2 overlaps")
